@@ -41,7 +41,7 @@ func init() {
 			m.RunNilField(s, "R-NILFIELD", fns)
 			m.RunPanicCall(s, "R-PANICCALL", fns)
 			m.RunHashableKeys(s, "R-PANICCALL", fns) // no map keyed by an interface is indexed with a value that may be a slice or a map
-			m.RunNilFuncCall(s, "R-PANICCALL", fns) // a function looked up in a table is called only where it was found
+			m.RunNilFuncCall(s, "R-PANICCALL", fns)  // a function looked up in a table is called only where it was found
 			m.RunNilObj(s, "R-NILOBJ", fns)
 			m.RunOkObj(s, "R-NILOBJ", fns) // the object of a (object, found) lookup is used only where it was found
 			m.RunTypedNil(s, "R-NILOBJ", fns)
